@@ -7,13 +7,15 @@
 //	enc   the bytes a writer produced for a value
 //	dec   what a reader returned for given input bytes (value, bytes consumed, error,
 //	      panic, allocation) -- full encodings with trailing junk, every strict prefix,
-//	      hostile length prefixes -- from a bytes.Reader and from a one-byte-at-a-time reader
+//	      hostile length prefixes -- from a bytes.Reader, a one-byte-at-a-time reader, a bytes.Buffer,
+//	      a bufio.Reader and an io.LimitedReader
 //	big   the same for arrays too long to log byte by byte (header bytes + lengths)
 //
 // No verdicts here: Codec_Trace.tla re-evaluates Enc/Dec of lib/Wire.tla on every line.
 package c03
 
 import (
+	"bufio"
 	"bytes"
 	"encoding/json"
 	"fmt"
@@ -320,15 +322,31 @@ type result struct {
 }
 
 func runRead(c codec, in []byte, max int, rd string, measure bool) (res result) {
+	// reader kinds: the concrete io.Reader types the decoders meet in gate (and special-case)
+	//   buf   *bytes.Reader          one   one byte per Read, no io.ByteReader
+	//   bbuf  *bytes.Buffer          bufio *bufio.Reader over a bytes.Reader
+	//   lim   *io.LimitedReader over a bytes.Reader
 	var src io.Reader
-	var br *bytes.Reader
-	var ob *oneByte
-	if rd == "buf" {
-		br = bytes.NewReader(in)
-		src = br
-	} else {
-		ob = &oneByte{b: in}
-		src = ob
+	var consumed func() int
+	switch rd {
+	case "buf":
+		br := bytes.NewReader(in)
+		src, consumed = br, func() int { return len(in) - br.Len() }
+	case "one":
+		ob := &oneByte{b: in}
+		src, consumed = ob, func() int { return ob.n }
+	case "bbuf":
+		bb := bytes.NewBuffer(append([]byte{}, in...))
+		src, consumed = bb, func() int { return len(in) - bb.Len() }
+	case "bufio":
+		br := bytes.NewReader(in)
+		bf := bufio.NewReaderSize(br, 16)
+		src, consumed = bf, func() int { return len(in) - br.Len() - bf.Buffered() }
+	case "lim":
+		lr := &io.LimitedReader{R: bytes.NewReader(in), N: int64(len(in))}
+		src, consumed = lr, func() int { return len(in) - int(lr.N) }
+	default:
+		panic("reader kind " + rd)
 	}
 	res.alloc = -1
 	res.rn = -1
@@ -356,11 +374,7 @@ func runRead(c codec, in []byte, max int, rd string, measure bool) (res result) 
 		runtime.ReadMemStats(&m1)
 		res.alloc = int64(m1.TotalAlloc - m0.TotalAlloc)
 	}
-	if br != nil {
-		res.n = len(in) - br.Len()
-	} else {
-		res.n = ob.n
-	}
+	res.n = consumed()
 	if !res.ok {
 		res.v = 0
 	}
@@ -411,6 +425,7 @@ type driver struct {
 	st    *stats
 	seen  map[string]bool
 	cur   string
+	turn  int
 	order []string
 	buf   map[string][]tracefmt.Rec
 }
@@ -436,8 +451,24 @@ func (d *driver) flush() {
 	d.order, d.buf = nil, map[string][]tracefmt.Rec{}
 }
 
+var extraKinds = []string{"bbuf", "bufio", "lim"}
+
+// readerKinds: every input goes through a bytes.Reader and the one-byte reader; the other
+// concrete reader types all see it in the thorough tier, in the quick tier they take turns
+// (so every function sees every kind on every input class, on a third of the inputs each).
+func (d *driver) readerKinds(measure bool) []string {
+	if measure {
+		return []string{"buf", "one"}
+	}
+	if tracefmt.Thorough() {
+		return []string{"buf", "one", "bbuf", "bufio", "lim"}
+	}
+	d.turn++
+	return []string{"buf", "one", extraKinds[d.turn%3]}
+}
+
 func (d *driver) dec(c codec, cls string, in []byte, max int, measure bool) {
-	for _, rd := range []string{"buf", "one"} {
+	for _, rd := range d.readerKinds(measure) {
 		r := runRead(c, in, max, rd, measure)
 		rec := tracefmt.Rec{"ev": "dec", "k": c.k, "fn": c.fn, "cls": cls, "in": ints(in), "max": max, "rd": rd,
 			"ok": r.ok, "v": r.v, "n": r.n, "panic": r.panicked, "alloc": r.alloc, "rn": r.rn}
@@ -539,7 +570,7 @@ func (d *driver) big(c codec, fill byte, n, max int) {
 		if cut < 0 || cut > len(enc) {
 			continue
 		}
-		for _, rd := range []string{"buf", "one"} {
+		for _, rd := range []string{"buf", "one", "bbuf"} {
 			r := runRead(c, enc[:cut], max, rd, false)
 			rlen, same := -1, false
 			if r.ok {
